@@ -22,22 +22,22 @@ CLAIMED = {
  "C17": ("exploration", "listing reader vs independent decoder over compiler outputs and structural programs", "DESIGN.md §3 C17"),
 }
 TEXT = {
- "C01": "For every program the run generated (tens of thousands per quick run: all README constructs, a construct x context matrix, stress shapes at width boundaries, the in-repo corpus, a share with one injected fault) the stdout and success/failure of the real pipeline equal those of an independent reference interpreter; a share also runs under a lock-step shadow of the VM and through the real CLI. A property over all programs cannot be enumerated; exploration with a consensus oracle (two independent references must agree before the subject is blamed) is the strongest thing this family offers, and the evidence lists which constructs were actually evaluated.",
+ "C01": "For every program the run generated (tens of thousands per quick run: all README constructs, a construct x context matrix and a three-way construct x wrapper x context matrix, ~110 fixed shapes (width boundaries, name clashes, tail calls, linked structures, one access site with many receiver layouts, 70 000-step histories), the in-repo corpus, a share with one injected fault of 58 classes) the stdout and success/failure of the real pipeline equal those of an independent reference interpreter; a share also runs under a lock-step shadow of the VM and through the real CLI. A property over all programs cannot be enumerated; exploration with a consensus oracle (two independent references must agree before the subject is blamed) is the strongest thing this family offers, and the evidence lists which constructs were actually evaluated.",
  "C02": "Every file the compiler emitted in the run was decoded by an independent reader and passed a validator that checks reference kinds, label uniqueness/locality, local ranges, method partition and — by abstract interpretation over each method's control-flow graph — a path-independent, never negative operand depth that is exactly 1 at every return. It is a per-artifact invariant, so checking every artifact of a diverse workload (incl. programs that fail at run time and keep_result both ways for every construct) is the natural level; lock-step runs confirm the static depths dynamically.",
  "C03": "write -> load -> write is byte-idempotent and content-preserving (constants, instruction sequences, globals, entry via the public API and an independent decoder) and behaviour-preserving for every Program explored, including programs that never came from FML's compiler (shuffled code layout, duplicate constants, empty classes and names, extreme integers) and, at the CLI, files larger than the loader's buffer.",
  "C04": "Both directions against an implementation that shares nothing with FML: every file FML wrote decodes strictly and equals the independent writer's bytes; every file the independent writer produced (structural programs, alternate-compiler output, the repo's golden files) loads as the program it denotes, also through the real file/stdin loader with short reads; four hand-assembled byte vectors pin the layout independently of both implementations. A symmetric change to FML's reader and writer passes every round-trip test but fails here.",
- "C05": "The real VM executes independently compiled, conforming files instruction by instruction while a reference machine written from the opcode documentation executes the same instruction; after every instruction the instruction pointer, the whole operand stack, the top frame, touched globals and heap objects and the output are compared (millions of shadowed instructions per quick run), plus an exhaustive receiver x method x arguments dispatch table. Observing the whole state after every step is what makes a wrong instruction visible even when the program's output would hide it.",
- "C06": "The property is stated at the CLI, so it is monitored there: over a thousand staged pipelines per quick run across the full configuration space (format x output kind x input kind x explicit/inferred format, file names, pre-existing outputs, chunked stdin), each stage's artifact compared byte for byte and the final behaviour with `fml run`; in-process AST round trips give volume. The recursion-limit refusal of deep ASTs is a recorded known finding.",
- "C07": "All 2197 operator triples against an independent precedence-climbing parser (exhaustive for that shape), ~45 documented shapes, and print/parse round trips of random parser-range ASTs with minimal, full and random parenthesisation and a random whitespace/comment separator at every token boundary.",
- "C08": "Fault enumeration: for each program every write call the serializer issues is first counted on a logging sink, then a short write is injected at each call in turn, plus every per-call acceptance limit of the list, consecutive 1-byte acceptances, Interrupted, Ok(0) and hard errors, directly and through the CLI's own sink wrapper; the oracle is conservation of bytes (Ok implies the sink holds exactly the Vec bytes). Real stdout sinks (file redirect, pipe, slowly drained pipe) are compared with -o. The quantifier is over fault sequences, so enumerating them is the right level.",
- "C09": "Exhaustive over the boundary table (16 x 16 x 11), all boolean/null tables, all cross-kind pairs and arities, plus seeded random pairs, against an i64 oracle, executed through the whole pipeline in BOTH build profiles, and every cell diffed between the debug and the release run by the driver.",
- "C10": "Fault enumeration at the CLI boundary of the real binary in both build profiles: one fault of each of 38 classes at every statement position of generated programs (the reference gives the exact output before the fault), 14 kinds of malformed sources, and hostile heap shapes (cycles of many sizes through elements/fields/parents reaching print, dispatch and error messages, also inside a 300000-object heap; 1000-link chains; deep recursion; nesting depth 200). What is observed is exactly what the property constrains: stdout, stderr emptiness, exit status, death by signal. The thorough tier repeats the workload under AddressSanitizer, valgrind memcheck and Miri.",
+ "C05": "The real VM executes independently compiled, conforming files instruction by instruction while a reference machine written from the opcode documentation executes the same instruction; after every instruction the instruction pointer, the whole operand stack, the top frame, touched globals and heap objects and the output are compared (millions of shadowed instructions per quick run), plus an exhaustive receiver x method x arguments dispatch table (both spellings of every built-in, plausible undefined names), an integer boundary table in both build profiles, and hand-assembled programs whose undefined instructions sit in dead code or run late. Observing the whole state after every step is what makes a wrong instruction visible even when the program's output would hide it.",
+ "C06": "The property is stated at the CLI, so it is monitored there: over a thousand staged pipelines per quick run across the full configuration space (format x output kind x input kind x explicit/inferred format, file names, unusually named output directories, pre-existing outputs, chunked stdin), over programs whose strings are random concatenations of the three formats' structural characters and whose identifiers are YAML/JSON look-alikes and the AST's own node names, each stage's artifact compared byte for byte and the final behaviour with `fml run`; in-process AST round trips give volume. The recursion-limit refusal of deep ASTs is a recorded known finding.",
+ "C07": "All 2197 operator triples against an independent precedence-climbing parser (exhaustive for that shape), ~45 documented shapes, every word of up to three letters plus ~800 keyword-like words in every identifier position, each of 20 white-space kinds between all tokens of a fixed program, and print/parse round trips of random parser-range ASTs with minimal, full and random parenthesisation and a random whitespace/comment separator at every token boundary.",
+ "C08": "Fault enumeration: for each program every write call the serializer issues is first counted on a logging sink, then a short write is injected at each call in turn, plus every per-call acceptance limit of the list, consecutive 1-byte acceptances, Interrupted, Ok(0) and hard errors, directly and through the CLI's own sink wrapper; the oracle is conservation of bytes (Ok implies the sink holds exactly the Vec bytes). Real stdout sinks (file redirect, pipe, slowly drained pipe, redirect typed at a pseudo-terminal) are compared with -o; a full device and a reader that closes early must not yield status 0. The quantifier is over fault sequences, so enumerating them is the right level.",
+ "C09": "Exhaustive over the boundary table (16 x 16 x 11), all boolean/null tables, all cross-kind pairs and arities, the boundary table again under the Feeny spellings, seeded random pairs chosen by magnitude and by relation, and bulk programs whose operands live in variables, fields and elements, against an i64 oracle, executed through the whole pipeline in BOTH build profiles, and every cell diffed between the debug and the release run by the driver.",
+ "C10": "Fault enumeration at the CLI boundary of the real binary in both build profiles: one fault of each of 58 classes (16 of them near misses and look-constant expressions) at every statement position of generated programs (the reference gives the exact output before the fault), six faulting expressions inside 16 wrappers x 38 contexts, unwritable or merged stderr, a placement matrix of statement forms x positions and ~200 must-reject sources incl. every undefined escape, 14 kinds of malformed sources, hand-assembled bytecode through `fml execute`, failures right after output that fills the usual buffers, programs beyond the format's capacity, and hostile heap shapes (cycles of many sizes through elements/fields/parents reaching print, dispatch and error messages, also inside a 300000-object heap; 1000-link chains; deep recursion; nesting depth 200). What is observed is exactly what the property constrains: stdout, stderr emptiness, exit status, death by signal. The thorough tier repeats the workload under AddressSanitizer, valgrind memcheck and Miri.",
  "C11": "Digests (bytecode hash, output hash, success) of a count-based corpus are compared across five compilations in one process, three to four fresh processes per build profile, debug vs release, and a CLI sample under varied cwd/path/stdin/environment/ASLR. Nondeterminism can only be sampled, not forced; the corpus is built so that hash-order dependence has many chances to show (many locals in several open scopes, labels, globals, printed objects with 6-10 fields).",
- "C12": "Bounded-exhaustive: every statement sequence up to the size bound over the scoping alphabet in five placements (about a million programs per quick run), larger sizes sampled, judged by a reference whose lexical resolver is independent of the compiler's scope table. Exhaustive per bound, not over all programs (exhaustive=false). The compile-order hazard is a recorded known finding with four dedicated probes.",
+ "C12": "Bounded-exhaustive: every statement sequence up to the size bound over the scoping alphabet in five placements (about a million programs per quick run), larger sizes sampled, 20 visibility probes and 11 fixed scoping shapes, judged by a reference whose lexical resolver is independent of the compiler's scope table. Exhaustive per bound, not over all programs (exhaustive=false). The compile-order hazard is a recorded known finding with four dedicated probes.",
  "C13": "18 expression shapes with a self-identifying tracer in every operand position, nested to depth 3, value kept or discarded; two independent oracles must both hold on the real output: the marker sequence predicted from the documented order and multiplicities, and the reference interpreter's whole output.",
- "C14": "Generated programs over parent chains of depth 1-5 ending in every kind of value, with overriding at every level, operator/get/set members, aliasing through every storage location kind and expected failures (arity, missing method, inherited field), judged by the reference interpreter with consensus on a share and a CLI sample; the evidence lists which methods were dispatched and which aliasing forms were exercised.",
- "C15": "All format strings up to length 4 (quick) / 5 (thorough: 19608 strings x 0-3 arguments, exhaustive) over the stated alphabet at bytecode and source level against an independent formatter (a failing print must print nothing), random formats over a wide Unicode alphabet, and random nested values rendered through print.",
- "C16": "At the CLI in both builds: identical stdout/exit with and without --heap-log and for every --heap-size of the list; the CSV has the header, one S record, exactly one A record per allocation of the reference's allocation history, strictly increasing sizes, and each increment equals what an affine shape model calibrated on the binary under test predicts for that allocation's shape (so order, count and shape dependence are checked without pinning size_of).",
+ "C14": "Generated programs over parent chains of depth 1-5 ending in every kind of value, with overriding at every level, operator/get/set members, aliasing through every storage location kind and expected failures (arity, missing method, inherited field), helper functions whose single access instruction sees receivers of many layouts, a table of plausible but undefined method names on every kind of receiver, and ~25 fixed object-model shapes, judged by the reference interpreter with consensus on a share and a CLI sample; the evidence lists which methods were dispatched and which aliasing forms were exercised.",
+ "C15": "All format strings up to length 4 (quick) / 6 (thorough: 137 257 strings x 0-3 arguments, exhaustive) over the stated alphabet at bytecode and source level against an independent formatter (a failing print must print nothing), random formats over a wide Unicode alphabet (a sample byte-exact through the CLI, also with a pseudo-terminal as stdout), formats with up to 12 placeholders around arguments of every kind, and random nested values rendered through print.",
+ "C16": "At the CLI in both builds: identical stdout/exit with and without --heap-log (16 unusual log locations incl. non-UTF-8 names and symbolic links) and for every --heap-size of the list, also for programs whose allocations cross the small sizes mid-history; the CSV has the header, one S record, exactly one A record per allocation of the reference's allocation history, strictly increasing sizes, and each increment equals what an affine shape model calibrated on the binary under test predicts for that allocation's shape (so order, count and shape dependence are checked without pinning size_of).",
  "C17": "The listing (in-process Display for volume, real `fml disassemble` via file and stdin for a sample) is parsed back into constants, globals, entry and per-method instruction sequences and compared with an independent decode of the same file, for compiler outputs, golden files and structural programs whose strings contain every delimiter of the listing.",
 }
 NOTE = {
